@@ -253,6 +253,19 @@ def _impl_real(case):
     li = np.cumsum(rr.normal(0, 0.02, size=(T2, 2, 3)), axis=0) + 0.2
     na = np.cumsum(rr.normal(0, 0.002, size=(T2, 2, 3)), axis=0) + 0.6 + 0.01 * np.sin(np.arange(T2) / 7.0)[:, None, None]
     parent = synth.make_traj(m, ['Li', 'Li', 'Na', 'Na'], np.concatenate([li, na], axis=1), mode='asis')
+    # making derived objects (corrected, selected, sliced, split, centre of mass) leaves the source as it is: what was memoised for the source
+    # before still equals a recomputation afterwards
+    mp = TrajectoryMetrics(parent)
+    memo = {name: copy.deepcopy(getattr(mp, name)(**kw)) for name, kw in (('speed', {}), ('tracer_diffusivity', {'dimensions': 3}), ('vibration_amplitude', {}))}
+    _keep = [parent.apply_drift_correction(fixed_species='Na'), parent.apply_drift_correction(floating_species='Li'), parent.center_of_mass(),
+             parent.filter('Li'), parent[5:], parent.split(2)]
+    for name, kw in (('speed', {}), ('tracer_diffusivity', {'dimensions': 3}), ('vibration_amplitude', {})):
+        checked += 1
+        again = getattr(type(mp), name).__wrapped__(mp, **kw)
+        if not _eq(np.asarray(getattr(mp, name)(**kw), dtype=float), np.asarray(again, dtype=float)) or not _eq(np.asarray(memo[name], dtype=float), np.asarray(again, dtype=float)):
+            problems.append(f'TrajectoryMetrics.{name} memoised for a trajectory differs from its recomputation after derived trajectories (drift-corrected, centre of '
+                            f'mass, selection, slice, parts) were made from that trajectory')
+    del _keep
     derived = [('filter(Li)', parent.filter('Li')), ('filter(Na)', parent.filter('Na')), ('slice[:30]', parent[:30]), ('whole', parent)]
     order2 = list(range(len(derived)))
     rr.shuffle(order2)
